@@ -46,3 +46,20 @@ Example C16_nonvacuous :
   let d := drive 100 [3] (new_reader (bytewise cutw TEOF) 2 false false 0 false CbReadAll) in
   dr_events d = [] /\ dr_err d = RIo EUnexpected /\ dr_partial d = [97; 98].
 Proof. vm_compute. repeat split; reflexivity. Qed.
+
+(* ------------------------------------------------------------------------------------
+   Write side.  [op_wf], [steps_of] are defined in proofs/WriterFrameProofs.v, [op_small]
+   in proofs/WriterFailProofs.v. *)
+Require Import Writer CipherProofs WriterInv WriterFrameProofs WriterFailProofs.
+
+(* for EVERY failing write index (d_fail_at = Some k, any k) and every history without
+   Reset from a writer that has not sent anything: once an operation reported the destination
+   error every later Write/WriteThrough/FlushFragment/Flush reports an error and NO further
+   destination write is attempted; what was delivered is whole frames followed by at most
+   the header of one more frame, never a hole *)
+Theorem C16_write_side_sticky_failure : forall ops w0,
+  w_op w0 < 16 -> w_buf w0 = [] -> Forall wf_key (w_masks w0) -> d_calls (w_dest w0) = [] ->
+  Forall op_wf ops -> Forall op_small ops ->
+  c16w_monitor (steps_of ops (fst (run_wops ops w0))) (dest_log (w_dest (snd (run_wops ops w0)))) = true.
+Proof. exact c16w_monitor_fresh. Qed.
+Print Assumptions C16_write_side_sticky_failure.
